@@ -293,7 +293,7 @@ def run_shard(sh):
         alpha = S.ALPHABET_C01
         if sh.get('fuzz'):
             # hostile well-framed messages (mutated unit-test corpus) among the peer's messages: whatever they do, the session heals
-            alpha = ['OPEN', 'KA', 'OPEN_h9', 'OPEN_h0', 'NOTI_CEASE', 'BADLEN', 'UPD1'] + S.fuzz_alphabet(rng, sh['fuzz']) + S.open_alphabet(rng, max(10, sh['fuzz'] // 5))
+            alpha = ['OPEN', 'KA', 'OPEN_h9', 'OPEN_h0', 'NOTI_CEASE', 'BADLEN', 'UPD1'] + S.fuzz_alphabet(rng, sh['fuzz']) + S.open_alphabet(rng, max(10, sh['fuzz'] // 5)) + S.noti_alphabet(rng, max(10, sh['fuzz'] // 8))
         for i in range(sh['n']):
             if budget.expired():
                 break
